@@ -11,6 +11,10 @@ CLAIMED = {
         text="Lean theorems over all operation histories of the channel-queue model (FIFO/exactly-once/capacity/close/rendezvous/views); model tied to laythe_core::object::Channel by a differential op-sequence stream with an independent spec monitor",
         note="Trusted: Lean kernel, axioms propext/Quot.sound/Classical.choice, hand-written queue model (validated by the chanq stream, not proved equal to the Rust), harness crate",
         technique="Lean 4 invariant proof over operation histories + model/implementation correspondence stream"),
+    "C06": dict(
+        text="A bytecode verifier over the symbolic post-optimisation code (depth + handler-stack certificate, checked locally) whose soundness over ALL control-flow paths is a Lean theorem (C06_verifier_sound, join agreement, capacity/operand/handler-depth/return clauses); the compiler's stack_effect table is proved equal to the VM's pops/pushes on every instruction ([G] lemma over the regenerated table), encoder lengths and jump formulas are proved to land exactly on the label offsets; the verified verifier is run on every function of the fixture corpus and of generated programs (translation validation), executed depths/handler counts from the interpreter probe are compared with the certificate, and the model encoder is compared byte-for-byte with the real encoder",
+        note="Trusted: Lean kernel + standard axioms, translator row for byte_code.rs, hand-written vmEffect/mayRaise (tied to vm/ops.rs by the probe stream, not proved from Rust), compile-dump and probe hooks; C06_full (every accepted program has a certificate) is not proved: the verifier is run instead",
+        technique="Lean 4 proof of verifier soundness + generated-table lemmas; verified checker run on all emitted functions; probe and encode correspondence"),
     "C12": dict(
         text="Lean theorem C12_preserves: for every instruction semantics satisfying the local laws, every well-delimited stream, every entry/label, all states and fuel, optimised = original; label-restart and line theorems; rule table proved equal to the one regenerated from peephole.rs; model tied to the real peephole_optimize on exhaustive windows, random streams and every fixture function; implementation output judged by an executable free-semantics Spec",
         note="Trusted: Lean kernel + the three standard axioms, translator rows for byte_code.rs/peephole.rs, hand-written optimiser model (checked against peephole_optimize through the cfg hook), free semantics as Spec; the local laws are proved for the free semantics, not for ops.rs",
